@@ -14,9 +14,22 @@ STD_ASSUMPTIONS = [
 ]
 
 
-def mk_graph(n, edges):
+def mk_graph(n, edges, history=None):
+    """history=k: the Graph object is first built with k edges and *used* in rank-based constraints on a throw-away
+    Solver (and asked for its line graph), then extended with the remaining edges: the object the real call sees has a past"""
     g = G.Graph(n)
-    for u, v in edges:
+    if history is None:
+        for u, v in edges:
+            g.add_edge(u, v)
+        return g
+    from cspuz import Solver as _S
+    for u, v in edges[:history]:
+        g.add_edge(u, v)
+    t = _S()
+    G.active_vertices_connected(t, t.bool_array(n), g, use_graph_primitive=False)
+    G.active_edges_acyclic(t, t.bool_array(len(g)), g)
+    g.line_graph()
+    for u, v in edges[history:]:
         g.add_edge(u, v)
     return g
 
